@@ -140,7 +140,29 @@ func (x *Exec) lookupNameIn(st *State, frame int, name string) (Val, bool) {
 
 // lookupName resolves a source-level name in the frames of the state (innermost first).
 func (x *Exec) lookupName(st *State, name string, hdr *ssa.BasicBlock) (Val, bool) {
-	for i := len(st.frames) - 1; i >= 0; i-- {
+	start := len(st.frames) - 1
+	// outer_<name>: skip the innermost frame (names of the caller of an inlined helper)
+	for strings.HasPrefix(name, "outer_") && start > 0 {
+		name = name[6:]
+		start--
+	}
+	if name == "idx" && start < len(st.frames)-1 {
+		// completed iterations of the innermost range loop of that outer frame that is being executed
+		f := st.frames[start]
+		best := -1
+		var bv Val
+		for v, val := range f.env {
+			if ph, ok := v.(*ssa.Phi); ok && ph.Comment == "rangeindex" {
+				if o := x.info(f.fn).valOrder[v]; o > best {
+					best, bv = o, val
+				}
+			}
+		}
+		if best >= 0 {
+			return mkInt("(+ " + bv.T + " 1)"), true
+		}
+	}
+	for i := start; i >= 0; i-- {
 		f := st.frames[i]
 		if f.fn == nil {
 			continue
@@ -149,8 +171,20 @@ func (x *Exec) lookupName(st *State, name string, hdr *ssa.BasicBlock) (Val, boo
 		vals := fi.names[name]
 		var best ssa.Value
 		bestOrd := -1
+		// address-taken variables live in a cell: the cell is the variable, DebugRef'd values of
+		// individual assignments are not
+		hasCell := false
 		for _, v := range vals {
-			if _, ok := f.env[v]; !ok {
+			if val, ok := f.env[v]; ok && val.Loc != nil && val.Loc.Kind == LCell {
+				hasCell = true
+			}
+		}
+		for _, v := range vals {
+			val, ok := f.env[v]
+			if !ok {
+				continue
+			}
+			if hasCell && !(val.Loc != nil && val.Loc.Kind == LCell) {
 				continue
 			}
 			o := fi.valOrder[v]
@@ -212,22 +246,27 @@ func (x *Exec) loopKey(f *Frame, li *loopInfo) string {
 
 // loopSpecFor finds the invariants for a loop of the current (possibly inlined) frame.
 func (x *Exec) loopSpecFor(f *Frame, li *loopInfo) *LoopSpec {
-	if f.isTop || f.callPath != "" {
-		if x.curCon != nil {
-			if ls, ok := x.curCon.Loops[x.loopKey(f, li)]; ok {
-				return ls
-			}
-		}
+	var own, callee *LoopSpec
+	if x.curCon != nil {
+		own = x.curCon.Loops[x.loopKey(f, li)]
 	}
-	// invariants given on the inlined function's own contract
+	// invariants / measure given on the inlined function's own contract
 	if !f.isTop {
 		if con := x.contractFor(f.fn); con != nil {
-			if ls, ok := con.Loops[fmt.Sprint(li.ord)]; ok {
-				return ls
-			}
+			callee = con.Loops[fmt.Sprint(li.ord)]
 		}
 	}
-	return nil
+	if own == nil {
+		return callee
+	}
+	if callee == nil {
+		return own
+	}
+	merged := &LoopSpec{Inv: append(append([]Clause{}, own.Inv...), callee.Inv...), Decreases: own.Decreases, DecSrc: own.DecSrc}
+	if merged.Decreases == nil {
+		merged.Decreases, merged.DecSrc = callee.Decreases, callee.DecSrc
+	}
+	return merged
 }
 
 // enterBlock handles phis and loop cutting. Returns false if the path ends here.
@@ -280,6 +319,7 @@ func (x *Exec) enterBlock(st *State, b, from *ssa.BasicBlock) bool {
 	sort.Slice(blocks, func(i, j int) bool { return blocks[i].Index < blocks[j].Index })
 	x.collectWrites(st, f.fn, blocks, f.env, ws, 0, map[*ssa.Function]bool{})
 	if ws.all {
+		x.gap(fmt.Sprintf("loop %s: everything is havoced at the loop head (%s)", lkey, ws.why))
 		x.havocAll(st)
 	} else {
 		var hn []string
@@ -470,6 +510,19 @@ func (x *Exec) loopEnv(st *State, b *ssa.BasicBlock) *SpecEnv {
 			if ph, _ := rangeIndexBound(b); ph != nil {
 				return mkInt("(+ " + f.env[ph].T + " 1)"), true
 			}
+			// not a range loop itself: the enclosing range loop of the same function
+			best := -1
+			var bv Val
+			for v, val := range f.env {
+				if ph, ok := v.(*ssa.Phi); ok && ph.Comment == "rangeindex" {
+					if o := x.info(f.fn).valOrder[v]; o > best {
+						best, bv = o, val
+					}
+				}
+			}
+			if best >= 0 {
+				return mkInt("(+ " + bv.T + " 1)"), true
+			}
 		case "visited":
 			for _, ins := range b.Instrs {
 				if nx, ok := ins.(*ssa.Next); ok {
@@ -520,6 +573,7 @@ type writeSet struct {
 	point map[string][]string // pointwise writes: heap -> reference terms (defined before the loop)
 	fresh map[string]bool     // heap has writes to fresh objects
 	inFresh bool              // analysing a store whose target is a fresh object
+	why     string
 }
 
 func newWriteSet() *writeSet {
@@ -635,10 +689,37 @@ func (x *Exec) noteEscapingCells(v Val, ws *writeSet) {
 		ws.cells[v.Loc.Cell] = true
 	}
 	if v.Clo != nil {
-		for _, b := range v.Clo.Bindings {
+		for i, b := range v.Clo.Bindings {
+			if b.Loc != nil && b.Loc.Kind == LCell && i < len(v.Clo.Fn.FreeVars) && !freeVarMayBeWritten(v.Clo.Fn, i) {
+				continue // captured cell is only read by the closure
+			}
 			x.noteEscapingCells(b, ws)
 		}
 	}
+}
+
+// freeVarMayBeWritten: the closure stores to its i-th free variable or lets its address escape.
+func freeVarMayBeWritten(fn *ssa.Function, i int) bool {
+	fv := fn.FreeVars[i]
+	refs := fv.Referrers()
+	if refs == nil {
+		return true
+	}
+	for _, r := range *refs {
+		switch t := r.(type) {
+		case *ssa.UnOp:
+			// load
+		case *ssa.Store:
+			if t.Addr == fv {
+				return true
+			}
+			return true // address stored somewhere
+		case *ssa.DebugRef:
+		default:
+			return true
+		}
+	}
+	return false
 }
 
 func (x *Exec) collectWrites(st *State, fn *ssa.Function, blocks []*ssa.BasicBlock, env map[ssa.Value]Val, ws *writeSet, depth int, seen map[*ssa.Function]bool) {
@@ -719,8 +800,11 @@ func (x *Exec) collectWrites(st *State, fn *ssa.Function, blocks []*ssa.BasicBlo
 				}
 			case *ssa.MakeClosure:
 				if env != nil {
-					for _, bnd := range t.Bindings {
+					for bi, bnd := range t.Bindings {
 						if v, ok := env[bnd]; ok {
+							if fnc, isFn := t.Fn.(*ssa.Function); isFn && v.Loc != nil && v.Loc.Kind == LCell && bi < len(fnc.FreeVars) && !freeVarMayBeWritten(fnc, bi) {
+								continue // the closure only reads this captured variable
+							}
 							x.noteEscapingCells(v, ws)
 						}
 					}
@@ -770,13 +854,15 @@ func (x *Exec) callWrites(st *State, caller *ssa.Function, c *ssa.CallCommon, en
 	var callee *ssa.Function
 	var con *Contract
 	var rule *PkgRule
+	var bindings []Val
 	if c.IsInvoke() {
 		con = x.contractForMethod(c)
 	} else {
 		callee = c.StaticCallee()
-		if callee == nil && env != nil {
+		if env != nil {
 			if v, ok := env[c.Value]; ok && v.Clo != nil {
 				callee = v.Clo.Fn
+				bindings = v.Clo.Bindings
 				x.noteEscapingCells(v, ws)
 			}
 		}
@@ -804,11 +890,49 @@ func (x *Exec) callWrites(st *State, caller *ssa.Function, c *ssa.CallCommon, en
 	}
 	if callee != nil && len(callee.Blocks) > 0 && x.inlinable(callee) && depth < x.maxDepth && !seen[callee] {
 		seen[callee] = true
-		x.collectWrites(st, callee, callee.Blocks, nil, ws, depth+1, seen)
+		// values flowing into the callee that are known here (closures, cell pointers, fixed refs)
+		cenv := map[ssa.Value]Val{}
+		if env != nil {
+			for i, p := range callee.Params {
+				if i < len(c.Args) {
+					if v, ok := env[c.Args[i]]; ok {
+						cenv[p] = v
+					} else if mc, ok := c.Args[i].(*ssa.MakeClosure); ok {
+						// closure created inside the analysed region: bindings that are known
+						var bs []Val
+						complete := true
+						for _, b := range mc.Bindings {
+							if bv, ok := env[b]; ok {
+								bs = append(bs, bv)
+							} else if al, isAl := b.(*ssa.Alloc); isAl && !isStruct(al.Type().(*types.Pointer).Elem()) && !isArray(al.Type().(*types.Pointer).Elem()) {
+								// a variable declared inside the analysed region: a fresh cell per iteration
+								bs = append(bs, Val{Ty: al.Type(), Loc: &Loc{Kind: LCell, Cell: -1, Elem: al.Type().(*types.Pointer).Elem()}})
+							} else {
+								bs = append(bs, Val{})
+								complete = false
+							}
+						}
+						_ = complete
+						cenv[p] = Val{Ty: mc.Type(), Clo: &Closure{Fn: mc.Fn.(*ssa.Function), Bindings: bs}}
+					}
+				}
+			}
+		}
+		for i, fv := range callee.FreeVars {
+			if i < len(bindings) && (bindings[i].Loc != nil || bindings[i].Clo != nil || bindings[i].T != "") {
+				cenv[fv] = bindings[i]
+			}
+		}
+		x.collectWrites(st, callee, callee.Blocks, cenv, ws, depth+1, seen)
 		delete(seen, callee)
 		return
 	}
 	ws.all = true
+	if callee != nil {
+		ws.why = "call of " + callee.String()
+	} else {
+		ws.why = "dynamic or interface call " + calleeShortName(c)
+	}
 }
 
 // modifiesHeaps adds (conservatively, whole heaps) what a contract's modifies clause covers.
